@@ -39,12 +39,12 @@ INLINE_HTML = (
 )
 
 EMPHASIS_END_RE = {
-    "*": re.compile(r"(?:" + PREVENT_BACKSLASH + r"\\\*|[^\s*])\*(?!\*)"),
-    "_": re.compile(r"(?:" + PREVENT_BACKSLASH + r"\\_|[^\s_])_(?!_)\b"),
-    "**": re.compile(r"(?:" + PREVENT_BACKSLASH + r"\\\*|[^\s*])\*\*(?!\*)"),
-    "__": re.compile(r"(?:" + PREVENT_BACKSLASH + r"\\_|[^\s_])__(?!_)\b"),
-    "***": re.compile(r"(?:" + PREVENT_BACKSLASH + r"\\\*|[^\s*])\*\*\*(?!\*)"),
-    "___": re.compile(r"(?:" + PREVENT_BACKSLASH + r"\\_|[^\s_])___(?!_)\b"),
+    "*": re.compile(r"(?:" + PREVENT_BACKSLASH + r"\\\*|(?<!\\)(?:\\\\)+|[^\s*\\])\*(?!\*)"),
+    "_": re.compile(r"(?:" + PREVENT_BACKSLASH + r"\\_|(?<!\\)(?:\\\\)+|[^\s_\\])_(?!_)\b"),
+    "**": re.compile(r"(?:" + PREVENT_BACKSLASH + r"\\\*|(?<!\\)(?:\\\\)+|[^\s*\\])\*\*(?!\*)"),
+    "__": re.compile(r"(?:" + PREVENT_BACKSLASH + r"\\_|(?<!\\)(?:\\\\)+|[^\s_\\])__(?!_)\b"),
+    "***": re.compile(r"(?:" + PREVENT_BACKSLASH + r"\\\*|(?<!\\)(?:\\\\)+|[^\s*\\])\*\*\*(?!\*)"),
+    "___": re.compile(r"(?:" + PREVENT_BACKSLASH + r"\\_|(?<!\\)(?:\\\\)+|[^\s_\\])___(?!_)\b"),
 }
 
 
